@@ -74,6 +74,13 @@ type Exec struct {
 	inSpec        int
 	noWriteCheck  int
 	curFrame      *Frame
+	knownTag      map[int]*Term
+	scratch       string
+	nQuick        int
+	infeasible    map[string]bool
+	infeasiblePC  map[string]int
+	guarded       map[int][]guardedTag
+	condTag       map[int]*Term // tag of v provided v is not the nil interface
 	recycledCells []recycledCell
 	mixN          int
 	mixInfo       map[string]mixRec
@@ -91,6 +98,8 @@ type Exec struct {
 	inlineMemo    map[*ssa.Function]bool
 	jsonSeen      map[int]bool
 	oblFacts      map[int]bool
+	permIdx       map[int]bool
+	curLoopClk    *Term
 	inTypeInv     int
 	ownObjs       map[int]bool
 	invAssumed    map[string]bool
@@ -127,6 +136,7 @@ func NewExec(p *Prog, fn *ssa.Function) *Exec {
 	x.inlineMemo = map[*ssa.Function]bool{}
 	x.jsonSeen = map[int]bool{}
 	x.oblFacts = map[int]bool{}
+	x.permIdx = map[int]bool{}
 	x.invAssumed = map[string]bool{}
 	x.invWritten = map[string]invObj{}
 	return x
@@ -142,7 +152,38 @@ func (x *Exec) addFactRaw(f *Term) {
 		// side facts about terms under a quantifier (e.g. addresses computed from a bound variable) cannot be stated globally
 		return
 	}
+	x.learnTags(f)
 	x.facts = append(x.facts, f)
+}
+
+// addPermFact: an unconditional structural fact emitted once per term (guarded by a seen-set, which is rolled back
+// together with the facts when a dry pass is discarded).
+func (x *Exec) addPermFact(f *Term) { x.addFactRaw(f) }
+
+func copyMap[K comparable, V any](m map[K]V) map[K]V {
+	out := make(map[K]V, len(m))
+	for k, v := range m {
+		out[k] = v
+	}
+	return out
+}
+
+// truncFacts drops the facts added since index n, except the unconditional ones (structural axioms about address
+// terms and the like are emitted once per term, so they must survive a discarded dry pass).
+func (x *Exec) truncFacts(n int) {
+	var keep []*Term
+	for i := n; i < len(x.facts); i++ {
+		if x.permIdx[i] {
+			keep = append(keep, x.facts[i])
+		}
+		delete(x.permIdx, i)
+		delete(x.oblFacts, i)
+	}
+	x.facts = x.facts[:n]
+	for _, f := range keep {
+		x.permIdx[len(x.facts)] = true
+		x.facts = append(x.facts, f)
+	}
 }
 
 // addFact adds a fact guarded by the current path condition.
@@ -247,6 +288,12 @@ func (x *Exec) runOnce(tag, caseParam string, caseLen int) {
 		v := x.fresh(fmt.Sprintf("fv$%d$%s", i, fv.Name()), fv.Type())
 		st.regs[fv] = v
 		x.assumeExisting(st, v, fv.Type())
+		if _, isP := fv.Type().Underlying().(*types.Pointer); isP {
+			// captured variables live in cells that exist
+			if vt, ok := v.(*Term); ok {
+				x.addFactRaw(x.tt.Gt(vt, x.tt.IntLit(0)))
+			}
+		}
 	}
 	x.curPC = st.pc
 	fr.entry = st.clone()
@@ -278,6 +325,7 @@ func (x *Exec) runOnce(tag, caseParam string, caseLen int) {
 	if x.con != nil {
 		for _, c := range x.con.Requires {
 			env := x.contractEnv(fr, st, fr.entry, nil)
+			env.foldMode = 2
 			t := x.evalBool(env, c.Expr)
 			x.addFactRaw(t)
 		}
@@ -305,6 +353,9 @@ func (x *Exec) runOnce(tag, caseParam string, caseLen int) {
 				x.oblige(fr, st, "lemma", fmt.Sprintf("%s:%d", pn, k+1), fr.con.frameTags(), x.tt.Implies(cond, body), "lemma: "+pn+" holds if "+lm.Text)
 			}
 		}
+	}
+	if os.Getenv("GOVC_DEBUG") != "" {
+		fmt.Fprintf(os.Stderr, "debug: %d known tags, %d conditional tags at entry of %s\n", len(x.knownTag), len(x.condTag), funcKey(fn))
 	}
 	x.runBody(fr, st)
 	x.finish(fr)
@@ -480,12 +531,12 @@ func (x *Exec) globalAddr(g *ssa.Global) *Term {
 	t := x.tt.Sym(name, "Int")
 	if !x.addrSeen[t.id] {
 		x.addrSeen[t.id] = true
-		x.addFactRaw(x.tt.Gt(t, x.tt.IntLit(0)))
-		x.addFactRaw(x.tt.Lt(x.tt.UF("birth$", "Int", t), x.tt.Sym("clk@0", "Int")))
-		x.addFactRaw(x.tt.UF("isbase$", "Bool", t))
+		x.addPermFact(x.tt.Gt(t, x.tt.IntLit(0)))
+		x.addPermFact(x.tt.Lt(x.tt.UF("birth$", "Int", t), x.tt.Sym("clk@0", "Int")))
+		x.addPermFact(x.tt.UF("isbase$", "Bool", t))
 		x.globals = append(x.globals, t)
 		for _, o := range x.globals[:len(x.globals)-1] {
-			x.addFactRaw(x.tt.Not(x.tt.Eq(o, t)))
+			x.addPermFact(x.tt.Not(x.tt.Eq(o, t)))
 		}
 	}
 	return t
@@ -633,6 +684,9 @@ func (x *Exec) runLoopInv(fr *Frame, L *Loop, ins []edge, spec *LoopSpec) []edge
 	}
 	// 1. invariant on entry
 	x.curPC = pre.pc
+	savedLoopClk := x.curLoopClk
+	x.curLoopClk = pre.clk
+	defer func() { x.curLoopClk = savedLoopClk }()
 	if spec != nil {
 		for _, c := range spec.Invariants {
 			env := x.contractEnv(fr, pre, fr.entry, nil)
@@ -643,6 +697,13 @@ func (x *Exec) runLoopInv(fr *Frame, L *Loop, ins []edge, spec *LoopSpec) []edge
 	// 2. dry pass to find the write set
 	savedFacts, savedObls := len(x.facts), len(x.obls)
 	savedQuiet := x.quiet
+	// once-per-term side facts emitted during the dry pass are discarded with it, so the seen-sets are rolled back too
+	sAddr, sLoaded, sJSON, sInvA, sChild, sNilMap := copyMap(x.addrSeen), copyMap(x.loadedSeen), copyMap(x.jsonSeen), copyMap(x.invAssumed), copyMap(x.childSeen), copyMap(x.nilMapSeen)
+	sChildren := map[int][]*Term{}
+	for k, v := range x.childrenOf {
+		sChildren[k] = append([]*Term{}, v...)
+	}
+	sGlobals := len(x.globals)
 	savedCounts := map[string]int{}
 	for k, v := range x.oblCount {
 		savedCounts[k] = v
@@ -676,12 +737,9 @@ func (x *Exec) runLoopInv(fr *Frame, L *Loop, ins []edge, spec *LoopSpec) []edge
 	x.recorders = x.recorders[:len(x.recorders)-1]
 	x.noWriteCheck--
 	x.quiet = savedQuiet
-	x.facts = x.facts[:savedFacts]
-	for k := range x.oblFacts {
-		if k >= savedFacts {
-			delete(x.oblFacts, k)
-		}
-	}
+	x.truncFacts(savedFacts)
+	x.addrSeen, x.loadedSeen, x.jsonSeen, x.invAssumed, x.childSeen, x.nilMapSeen, x.childrenOf = sAddr, sLoaded, sJSON, sInvA, sChild, sNilMap, sChildren
+	x.globals = x.globals[:sGlobals]
 	x.obls = x.obls[:savedObls]
 	x.oblCount = savedCounts
 	x.notes = savedNotes
@@ -893,6 +951,7 @@ func (x *Exec) finish(fr *Frame) {
 		}
 		for _, c := range con.Ensures {
 			env := x.contractEnv(fr, rs.st, fr.entry, rs.vals)
+			env.foldMode = 1
 			g := x.evalBool(env, c.Expr)
 			if len(c.KFs) > 0 {
 				var regions []*Term
@@ -936,7 +995,7 @@ func (x *Exec) finish(fr *Frame) {
 func (x *Exec) obligeNoAssume(fr *Frame, st *State, class, detail string, tags []string, goal *Term, text string) *Obligation {
 	n := len(x.facts)
 	o := x.oblige(fr, st, class, detail, tags, goal, text)
-	x.facts = x.facts[:n]
+	x.truncFacts(n)
 	return o
 }
 
@@ -1046,6 +1105,22 @@ func (x *Exec) checkInitComplete(fr *Frame, st *State) {
 			continue
 		}
 		v := tt.Select(cur, c.idx)
+		if n := x.interiorArrayLen(c.idx); n > 0 && strings.HasPrefix(c.heap, "A$") {
+			// fixed-size array field: only its n cells exist
+			var cells []*Term
+			for k := int64(0); k < n; k++ {
+				cells = append(cells, tt.Select(v, tt.IntLit(k)))
+			}
+			var eqs []*Term
+			for _, cell := range cells {
+				eqs = append(eqs, tt.Eq(tt.Subst(cell, m1), tt.Subst(cell, m2)))
+			}
+			pcA, pcB := tt.Subst(st.pc, m1), tt.Subst(st.pc, m2)
+			live := tt.Not(tt.Select(red, c.obj))
+			g := tt.Implies(tt.And(pcA, pcB, tt.Subst(c.cond, m1), tt.Subst(live, m1)), tt.And(eqs...))
+			x.obligeNoAssume(fr, &State{pc: tt.True()}, "init-complete", c.heap, []string{"C04"}, g, "every cell of the array field of a recycled object is re-initialised")
+			continue
+		}
 		va, vb := tt.Subst(v, m1), tt.Subst(v, m2)
 		if va == vb {
 			x.oblige(fr, st, "init-complete", c.heap, []string{"C04"}, tt.True(), "field of a recycled object does not depend on its previous content")
@@ -1057,4 +1132,166 @@ func (x *Exec) checkInitComplete(fr *Frame, st *State) {
 		o := x.obligeNoAssume(fr, &State{pc: tt.True()}, "init-complete", c.heap, []string{"C04"}, g, "field of a recycled object does not depend on the content it had in the pool (every field is re-initialised)")
 		_ = o
 	}
+}
+
+// interiorArrayLen: for an address fa$T$f(obj) of an array-typed field, the array length (0 otherwise).
+func (x *Exec) interiorArrayLen(p *Term) int64 {
+	if shapeOf(p) != shField {
+		return 0
+	}
+	rest := p.Op[3:]
+	i := strings.LastIndex(rest, "$")
+	if i < 0 {
+		return 0
+	}
+	tn, fn := rest[:i], rest[i+1:]
+	var T types.Type
+	func() {
+		defer func() { recover() }()
+		T = x.lookupType(tn)
+	}()
+	if T == nil {
+		return 0
+	}
+	st, ok := T.Underlying().(*types.Struct)
+	if !ok {
+		return 0
+	}
+	for k := 0; k < st.NumFields(); k++ {
+		if st.Field(k).Name() == fn {
+			if a, ok := st.Field(k).Type().Underlying().(*types.Array); ok {
+				return a.Len()
+			}
+		}
+	}
+	return 0
+}
+
+// learnTags: unconditional facts of the form tagOf(v) == <literal type id> refine later dispatch on v syntactically.
+func (x *Exec) learnTags(f *Term) {
+	if f.Kind != KApp {
+		return
+	}
+	switch f.Op {
+	case "and":
+		for _, a := range f.Args {
+			x.learnTags(a)
+		}
+	case "=>":
+		// guard => facts: tags learned under a guard, usable where the path condition contains the guard
+		x.learnGuarded(f.Args[0], f.Args[1])
+	case "or":
+		if len(f.Args) == 2 {
+			// (p == nil) || facts   is   p != nil => facts
+			for k := 0; k < 2; k++ {
+				n, o := f.Args[k], f.Args[1-k]
+				if n.Kind == KApp && n.Op == "=" && n.Args[0].Sort == "Int" {
+					x.learnGuarded(x.tt.Not(n), o)
+				}
+			}
+		}
+		// isnil(v) || (tagOf(v) == T && ...): the tag is known whenever v is not nil
+		if len(f.Args) == 2 {
+			for k := 0; k < 2; k++ {
+				n, o := f.Args[k], f.Args[1-k]
+				if n.Kind == KApp && n.Op == "(_ is vnil)" {
+					v := n.Args[0]
+					var find func(t *Term)
+					find = func(t *Term) {
+						if t.Kind != KApp {
+							return
+						}
+						if t.Op == "and" {
+							for _, a := range t.Args {
+								find(a)
+							}
+							return
+						}
+						if t.Op == "=" {
+							a, b := t.Args[0], t.Args[1]
+							if _, ok := intVal(a); ok {
+								a, b = b, a
+							}
+							if _, ok := intVal(b); ok && a.Kind == KApp && a.Op == "tagOf" && a.Args[0] == v {
+								if x.condTag == nil {
+									x.condTag = map[int]*Term{}
+								}
+								x.condTag[v.id] = b
+							}
+						}
+					}
+					find(o)
+				}
+			}
+		}
+	case "=":
+		a, b := f.Args[0], f.Args[1]
+		if _, ok := intVal(a); ok {
+			a, b = b, a
+		}
+		if _, ok := intVal(b); ok && a.Kind == KApp && a.Op == "tagOf" {
+			if x.knownTag == nil {
+				x.knownTag = map[int]*Term{}
+			}
+			x.knownTag[a.Args[0].id] = b
+		}
+	}
+}
+
+type guardedTag struct {
+	guard *Term
+	tag   *Term
+	cond  bool // true: tag holds provided the value is not the nil interface
+}
+
+// learnGuarded: like learnTags, for facts that hold under a guard.
+func (x *Exec) learnGuarded(guard, f *Term) {
+	saveK, saveC := x.knownTag, x.condTag
+	x.knownTag, x.condTag = map[int]*Term{}, map[int]*Term{}
+	x.learnTags(f)
+	if x.guarded == nil {
+		x.guarded = map[int][]guardedTag{}
+	}
+	for id, t := range x.knownTag {
+		x.guarded[id] = append(x.guarded[id], guardedTag{guard, t, false})
+	}
+	for id, t := range x.condTag {
+		x.guarded[id] = append(x.guarded[id], guardedTag{guard, t, true})
+	}
+	x.knownTag, x.condTag = saveK, saveC
+}
+
+// pcHas: g is (syntactically) one of the conjuncts of the current path condition.
+func (x *Exec) pcHas(g *Term) bool {
+	pc := x.curPC
+	if pc == nil {
+		return false
+	}
+	if pc == g {
+		return true
+	}
+	if pc.Kind == KApp && pc.Op == "and" {
+		for _, a := range pc.Args {
+			if a == g {
+				return true
+			}
+		}
+	}
+	return false
+}
+
+// tagIfNonNil: a literal type id for v that is valid whenever v is not the nil interface (or unconditionally), if known.
+func (x *Exec) tagIfNonNil(v *Term) (*Term, bool) {
+	if t, ok := x.knownTag[v.id]; ok {
+		return t, true
+	}
+	if t, ok := x.condTag[v.id]; ok {
+		return t, true
+	}
+	for _, g := range x.guarded[v.id] {
+		if x.pcHas(g.guard) {
+			return g.tag, true
+		}
+	}
+	return nil, false
 }
